@@ -24,7 +24,7 @@ import (
 // ---------------------------------------------------------------------------- stand-in tool
 
 type toolPlan struct {
-	Outcome string `json:"outcome"` // ok | issues | empty | crash | signal | garbage
+	Outcome string `json:"outcome"` // ok | issues | empty | crash | signal | garbage | trailer | twoarrays
 	DelayMs int    `json:"delay_ms"`
 	N       int    `json:"n"`
 	Gated   bool   `json:"gated"` // wait for the file release-<tok> before finishing (scheduler gate)
@@ -122,6 +122,13 @@ func toolMain(args []string) error {
 		time.Sleep(time.Second)
 	case "garbage":
 		fmt.Print("this is not JSON")
+		os.Exit(1)
+	case "trailer": // a valid JSON document followed by something else is not JSON
+		fmt.Print("[]\nshellcheck: internal error: the impossible happened")
+		os.Exit(1)
+	case "twoarrays":
+		one := `[{"file":"-","line":2,"endLine":2,"column":1,"endColumn":2,"level":"warning","code":2000,"message":"first document."}]`
+		fmt.Print(one + one)
 		os.Exit(1)
 	}
 	os.Exit(0)
